@@ -110,10 +110,13 @@ func c17OwnSpecs(quick bool) []*wSpec {
 			{Prop: "C17", Name: "C17-2w1m-fee100-q", Cfg: two, Init: []string{"mint|0|16"}, Menu: c17Menu, Depth: 3},
 			{Prop: "C17", Name: "C17-pendingmelt-q", Cfg: wworld.Config{FeeA: 0, Wallets: []wworld.WalletCfg{{Default: "a"}}}, Init: []string{"mint|0|16", "melt|0|4|P"}, Menu: c17Menu, Depth: 3},
 			{Prop: "C17", Name: "C17-mintswap-q", Cfg: swapCfg, Init: []string{"mint|0|16", "addmint|0|b"}, Menu: swapMenu, Depth: 2},
+			{Prop: "C17", Name: "C17-crossmint-rotated-q", Cfg: crossMintCfg, Init: crossMintRotatedInit, Menu: crossMintP2PKMenu, Depth: 2},
 			{Prop: "C17", Name: "C17-crossmint-p2pk-q", Cfg: crossMintCfg, Init: []string{"mint|2|16", "mint|0|8"}, Menu: crossMintP2PKMenu, Depth: 3},
 			// big coins of a fee-free keyset, then the mint rotates to a fee-bearing one: every spend has to swap old-keyset
 			// coins while another keyset is active
 			{Prop: "C17", Name: "C17-bigcoin-feechange-q", Cfg: wworld.Config{FeeA: 0, Wallets: []wworld.WalletCfg{{Default: "a"}, {Default: "a"}}}, Init: []string{"give|0|16,8", "rotate|a|100"}, Menu: c17RotMenu, Depth: 2},
+			// two rotations noticed by the running wallet, then the wallet is closed and opened again
+			{Prop: "C17", Name: "C17-rotated-twice-reload-q", Cfg: two, Init: []string{"mint|0|4", "rotate|a|100", "mint|0|4", "rotate|a|0", "mint|0|4", "reload|0"}, Menu: c17RotMenu, Depth: 1},
 			{Prop: "C17", Name: "C17-rotated-fee100-q", Cfg: two, Init: []string{"mint|0|7", "rotate|a|100", "mint|0|8"}, Menu: c17RotMenu, Depth: 3},
 		}
 	}
@@ -127,6 +130,7 @@ func c17OwnSpecs(quick bool) []*wSpec {
 		{Prop: "C17", Name: "C17-crossmint-p2pk", Cfg: crossMintCfg, Init: []string{"mint|2|16", "mint|0|8"}, Menu: crossMintP2PKMenu, Depth: 4},
 		{Prop: "C17", Name: "C17-bigcoin-feechange", Cfg: wworld.Config{FeeA: 0, Wallets: []wworld.WalletCfg{{Default: "a"}, {Default: "a"}}}, Init: []string{"give|0|16,8", "rotate|a|100"}, Menu: c17RotMenu, Depth: 3},
 		{Prop: "C17", Name: "C17-bigcoin-feedrop", Cfg: wworld.Config{FeeA: 1000, Wallets: []wworld.WalletCfg{{Default: "a"}, {Default: "a"}}}, Init: []string{"give|0|16,8", "rotate|a|0"}, Menu: c17RotMenu, Depth: 3},
+		{Prop: "C17", Name: "C17-rotated-twice-reload", Cfg: two, Init: []string{"mint|0|4", "rotate|a|100", "mint|0|4", "rotate|a|0", "mint|0|4", "reload|0"}, Menu: c17RotMenu, Depth: 3},
 		{Prop: "C17", Name: "C17-rotated-fee100", Cfg: two, Init: []string{"mint|0|7", "rotate|a|100", "mint|0|8"}, Menu: c17RotMenu, Depth: 4},
 		{Prop: "C17", Name: "C17-rotated-fee1000to100", Cfg: wworld.Config{FeeA: 1000, Wallets: []wworld.WalletCfg{{Default: "a"}, {Default: "a"}}}, Init: []string{"mint|0|7", "rotate|a|100", "mint|0|8"}, Menu: c17RotMenu, Depth: 4},
 	}
